@@ -164,4 +164,41 @@ theorem inv_commit_failure {s s1 s' : St} {f : Fin} (hi : Inv s)
   inv_commit_failure_partial (pre := revert (beginTx s) s1) hi rfl rfl rfl rfl hl hf
     (revert_vsum s s1 hi.vnodup hlk) hfin
 
+/-- the executable `commitTx` reports failure exactly along the revert-then-finalize shape -/
+theorem commitTx_failure_shape {s s' : St} {t : Tx} (h : commitTx s t = .ok (s', false)) :
+    ∃ s1 e, runOps (beginTx s) t.ops = (s1, e) ∧
+      finalize (revert (beginTx s) s1) t.fin false = .ok s' := by
+  unfold commitTx at h
+  simp only at h
+  generalize hro : runOps (beginTx s) t.ops = p at h
+  obtain ⟨s1, e⟩ := p
+  simp only at h
+  split at h
+  · split at h; · cases h
+    injection h with h
+    simp only [Prod.mk.injEq] at h
+    exact absurd h.2 (by simp)
+  · split at h; · cases h
+    rename_i s2 hf
+    injection h with h
+    simp only [Prod.mk.injEq] at h
+    obtain ⟨rfl, _⟩ := h
+    exact ⟨s1, e, rfl, hf⟩
+
+/-- a failed run of the executable model is a `Commits.failure` step (so `inv_reachable` applies to
+it) as soon as the fee locks it took sit on XRD vaults that existed before the transaction -/
+theorem commitTx_failure_commits {s s' : St} {t : Tx} (hi : Inv s)
+    (h : commitTx s t = .ok (s', false))
+    (hlk : ∀ s1 e, runOps (beginTx s) t.ops = (s1, e) →
+      (∀ l ∈ s1.locks, l.vault ∈ s.vaults ∧ s.vres l.vault = some XRD) ∧
+      FinOk (revert (beginTx s) s1) t.fin) : Commits s t s' := by
+  obtain ⟨s1, e, hr, hfin⟩ := commitTx_failure_shape h
+  obtain ⟨hl, hf⟩ := hlk s1 e hr
+  exact Commits.failure (pre := revert (beginTx s) s1) rfl rfl rfl rfl
+    (by intro v hvm
+        simp only [List.mem_map] at hvm
+        obtain ⟨l, hl', rfl⟩ := hvm
+        exact (hl l hl').2)
+    hf (revert_vsum s s1 hi.vnodup hl) hfin
+
 end Radix.Ledger
